@@ -279,7 +279,7 @@ class FlowGraph:
             return list(rv["ops"]), []
         return [], []
 
-    def walk(self, ops=(), places=(), at=None, through=None, deep=None, max_nodes=20000):
+    def walk(self, ops=(), places=(), at=None, through=None, deep=None, max_nodes=20000, defs_out=None):
         """Backward walk from operands/places used at point `at`=(b, i).
 
         through(call_terminator) -> bool decides whether the walk continues into the arguments of a
@@ -340,6 +340,8 @@ class FlowGraph:
                 if (ds.id, comp) in seen_defs or (ds.id, None) in seen_defs:
                     continue
                 seen_defs.add((ds.id, comp))
+                if defs_out is not None:
+                    defs_out.add(ds.id)
                 if ds.kind == "param":
                     res.add(("p", ds.local))
                     continue
